@@ -29,6 +29,7 @@ type c08Case struct {
 	S          Script `json:",omitempty"` // resp-count
 	NilKind    string `json:",omitempty"` // unary-nil: untyped | typed
 	Enc        string `json:",omitempty"` // unary-nil over HTTP: proto | json (raw HTTP request)
+	Silent     bool   `json:",omitempty"` // unary-nil over HTTP: the server uses an error renderer that writes nothing
 	NReq       int    `json:",omitempty"` // req-count
 	FirstEmpty bool   `json:",omitempty"` // req-count: the first request is the empty message (zero-length frame)
 	Method     string `json:",omitempty"` // req-count: which single-request method
@@ -97,7 +98,7 @@ func c08RespCount(c c08Case, o *Outcome) *Outcome {
 }
 
 func c08UnaryNil(c c08Case, o *Outcome) *Outcome {
-	o.class("nil=%s/enc=%s", c.NilKind, c.Enc)
+	o.class("nil=%s/enc=%s/silent-renderer=%v", c.NilKind, c.Enc, c.Silent)
 	o.NonTrivial = true
 	ran := 0
 	var mu sync.Mutex
@@ -114,9 +115,13 @@ func c08UnaryNil(c c08Case, o *Outcome) *Outcome {
 		}
 		return nil, nil
 	}}
+	copts := carrierOpts{}
+	if c.Silent && isHTTP(c.Carrier) {
+		copts.HOpts = []httpgrpc.HandlerOption{httpgrpc.ErrorRenderer(func(context.Context, *status.Status, http.ResponseWriter) {})}
+	}
 	if c.Enc == "json" {
 		// raw HTTP request with the JSON content type against the handler
-		car := newCarrier(c.Carrier, newServiceDesc(), svc, carrierOpts{})
+		car := newCarrier(c.Carrier, newServiceDesc(), svc, copts)
 		defer car.Close()
 		body, _ := protojson.Marshal(&pb.Message{Count: 3})
 		req := httptest.NewRequest("POST", "http://verif.test"+mUnary, bytes.NewReader(body))
@@ -147,7 +152,7 @@ func c08UnaryNil(c c08Case, o *Outcome) *Outcome {
 		}
 		return o
 	}
-	car := newCarrier(c.Carrier, newServiceDesc(), svc, carrierOpts{})
+	car := newCarrier(c.Carrier, newServiceDesc(), svc, copts)
 	defer car.Close()
 	out := &pb.Message{Count: 99}
 	var err error
@@ -253,6 +258,7 @@ func genC08(t *rapid.T) c08Case {
 		if isHTTP(c.Carrier) && rapid.Bool().Draw(t, "json") {
 			c.Enc = "json"
 		}
+		c.Silent = isHTTP(c.Carrier) && rapid.Bool().Draw(t, "silent")
 		return c
 	case 1:
 		return c08Case{Mode: "req-count", Carrier: rapid.SampledFrom([]string{cHTTP, cHTTPMux}).Draw(t, "carrier"), NReq: rapid.IntRange(0, 4).Draw(t, "nreq"), Method: "ServerStream", FirstEmpty: rapid.Bool().Draw(t, "firstempty")}
